@@ -241,6 +241,9 @@ package mint
 //@ macro quoteproofsfree(q) = (forall y Str :: old(db.pending)[y] && old(db.pendrow)[y].MeltQuoteId == q ==> !db.pending[y] && db.spent[y] == old(db.spent)[y])
 
 //@ func (*Mint).GetMeltQuoteState
+// C16: a state poll never issues; it adds to the redeemed total only when it adopts a finished payment
+//@   ensures @noissue [C16] db.faults == old(db.faults) ==> db.issuedtotal == old(db.issuedtotal)
+//@   ensures @redeemedgrows [C16] db.redeemedtotal >= old(db.redeemedtotal)
 // rely/guarantee tier: every store step of this operation is a step the rely clauses allow
 //@   rgensures @steps [C01,C03] true
 //@   records api.err api.calls
